@@ -100,6 +100,13 @@ def _exc(ex):
 
 
 def Q(cls, q):
+    if len(q) > 2 and q[2] != q[1]:
+        # the user built the quantity in unit q[2] and converted it IN PLACE
+        # to q[1] before handing it to the library
+        k = cls.__name__
+        obj = cls(q[0] * si.factor(k, q[1]) / si.factor(k, q[2]), q[2])
+        obj.to(q[1], inplace=True)
+        return obj
     return cls(q[0], q[1])
 
 
@@ -786,6 +793,10 @@ def _execute(scn, keep_objects=False, prev_ctx=None):
                                       si.obj_si(pt.time[i + 1]))
                             target = U.Time((t0 + f * (t1 - t0)) /
                                             si.factor('Time', tu), tu)
+                        if op.get('as_interval') and target.value > 0:
+                            # a TimeInterval is a Time: a legal target
+                            target = U.TimeInterval(target.value, target.unit)
+                            rec['target_class'] = 'TimeInterval'
                         rec['t_si'] = si.obj_si(target)
                         rec['t_index'] = [i, f]
                     else:
